@@ -1,6 +1,7 @@
 """C05 — every primary and its argument language is recognised exactly (keyword grammar of token())."""
 import json
 import os
+import re
 
 from .. import facts as F
 from .. import peg, rx, kw, args
